@@ -1,11 +1,12 @@
 """C04, parser layer: tie between coq/Json/ParserModel.v (extracted: build/modelrun_jsonparser) and the generated
 `<T>_parse_json_as_root` of gen/c04_schema.fbs (harness/json_scan_diff.c, request `parse`).
 
-    parser_model_check(ctx, cases, harness=None) -> (mismatches, stats)
+    parser_model_check(ctx, cases, harness=None, c_replies=None, suite=None) -> (mismatches, stats)
 
-cases: iterable of (root, flags, fidmode, data[, klass]) with root in FRAG_ROOTS ('Leaf', 'Rec', 'Req': the root types of
-gen/c04_schema.fbs whose tables lie in the modelled fragment), flags = parser flag bits, fidmode 0|1 (identifier "C4RT"),
-data = the input bytes.  Per case the C parser and the model run on the same bytes and are compared on
+cases: iterable of (root, flags, fidmode, data[, klass]) with root in suite.roots (default suite SUITE_C04: 'Leaf', 'Rec', 'Req',
+the root types of gen/c04_schema.fbs whose tables lie in the modelled fragment, harness/json_scan_diff.c; SUITE_B4: 'Item', 'Doc' of
+gen/c04b_schema.fbs with every field kind of the fragment, harness/c04b_parse.c), flags = parser flag bits, fidmode 0|1 (file
+identifier), data = the input bytes.  Per case the C parser and the model run on the same bytes and are compared on
   accept / reject, ctx.error and ctx.error_loc on reject, end_loc on accept, the finished buffer BYTE FOR BYTE
   (model: create-level script of the parser model executed by Builder/EmitModel.run), the value tree (Format/Spec.decode_root
   of the C-built bytes = the model's value), and the C verifier's verdict on the C-built bytes (must accept).
@@ -17,41 +18,131 @@ from . import lib
 from . import c04_util as U
 
 ROOT = lib.ROOT
-FRAG_TABLES = ['Leaf', 'Rec', 'Req']          # table index in the descriptor = position in this list
-FRAG_ROOTS = list(FRAG_TABLES)
+LONG_DIGITS = re.compile(rb'\d{20,}')
 SIZES = {'byte': (1, 'i'), 'ubyte': (1, 'u'), 'short': (2, 'i'), 'ushort': (2, 'u'), 'int': (4, 'i'), 'uint': (4, 'u'),
          'long': (8, 'i'), 'ulong': (8, 'u'), 'bool': (1, 'b')}
-IDENT_WORD = int.from_bytes(b'C4RT', 'little')
 
 
-def _sty(t):
-    if t in U.ENUMS: t = U.ENUMS[t]['base']
-    return SIZES[t]
+class Suite:
+    """one schema + harness: tables = {name: [(field, type, default)]} in the notation of c04_util.TABLES, frag = the tables
+    of the modelled fragment in descriptor order (table index = position)"""
+    def __init__(self, name, fbs, harness_src, tables, required, enums, frag, ident):
+        self.name, self.fbs, self.harness_src, self.tables, self.required, self.enums = name, fbs, harness_src, tables, required, enums
+        self.frag, self.roots, self.ident_word = list(frag), list(frag), int.from_bytes(ident, 'little')
+        self._desc = None
+
+    def sty(self, t):
+        if t in self.enums: t = self.enums[t]['base']
+        return SIZES[t]
+
+    def kind(self, t, dflt):
+        if isinstance(t, tuple):
+            assert t[0] == 'vec'
+            if t[1] == 'string': return 'V'
+            if t[1] in self.frag: return 'T%d' % self.frag.index(t[1])
+            sz, k = self.sty(t[1]); return 'v%d%s' % (sz, k)
+        if t == 'string': return 'S'
+        if t in self.frag: return 't%d' % self.frag.index(t)
+        sz, k = self.sty(t)
+        d = int(dflt) & ((1 << (8 * sz)) - 1)
+        return 's%d%s:%s' % (sz, k, d.to_bytes(sz, 'little').hex())
+
+    def descriptor(self):
+        """text descriptor of the fragment tables for modelrun_jsonparser (see ocaml/jsonparser/driver.ml)"""
+        if self._desc is None:
+            out = []
+            for tn in self.frag:
+                fs = []
+                for fid, (f, t, d) in enumerate(self.tables[tn]):
+                    fs.append('%s:%d:%d:%s' % (f.encode().hex(), fid, 1 if (tn, f) in self.required else 0, self.kind(t, d)))
+                out.append(','.join(fs))
+            self._desc = ';'.join(out)
+        return self._desc
+
+    def build_harness(self, ctx):
+        gdir = os.path.join(ctx.bdir, 'gen_' + self.name)
+        rc, out = ctx.gen(os.path.join(ROOT, 'gen', self.fbs), gdir, opts=('-a', '--json'))
+        if rc != 0: raise lib.BuildFailure('flatcc -a --json ' + self.fbs, out)
+        if self.harness_src == 'json_scan_diff.c':
+            return U.build_harness(ctx, self.harness_src, 'json_scan_diff_b', gdir)
+        exe = os.path.join(ctx.bdir, 'c04b_parse_' + self.name)
+        ctx.cc([os.path.join(ROOT, 'harness', self.harness_src)] + [os.path.join(lib.REPO, 'src/runtime', x) for x in
+               ('builder.c', 'emitter.c', 'refmap.c', 'verifier.c', 'json_parser.c')], exe, incs=['-I' + gdir, '-I' + os.path.join(ROOT, 'harness')], defs=['-DNDEBUG'])
+        return lib.Harness(exe)
 
 
-def _kind(t, dflt):
+# the root types of gen/c04_schema.fbs whose tables lie in the fragment (harness/json_scan_diff.c)
+SUITE_C04 = Suite('c04', 'c04_schema.fbs', 'json_scan_diff.c', U.TABLES, U.REQUIRED, U.ENUMS, ['Leaf', 'Rec', 'Req'], b'C4RT')
+# gen/c04b_schema.fbs: every field kind of the fragment (harness/c04b_parse.c)
+B4_ENUMS = {'Kind': {'base': 'ubyte', 'syms': {'K0': 0, 'K1': 1, 'K5': 5}, 'flags': False}}
+B4_TABLES = {
+    'Item': [('id', 'uint', 0), ('name', 'string', None), ('tags', ('vec', 'string'), None), ('ok', 'bool', 1), ('w', 'ushort', 7)],
+    'Doc': [('b', 'bool', 0), ('i8', 'byte', -3), ('u8', 'ubyte', 0), ('i16', 'short', 0), ('u16', 'ushort', 500), ('i32', 'int', 0),
+            ('u32', 'uint', 4000000000), ('i64', 'long', -1), ('u64', 'ulong', 0), ('kind', 'Kind', 1), ('title', 'string', None),
+            ('names', ('vec', 'string'), None), ('vb', ('vec', 'bool'), None), ('vu8', ('vec', 'ubyte'), None), ('vi16', ('vec', 'short'), None),
+            ('vu64', ('vec', 'ulong'), None), ('vi64', ('vec', 'long'), None), ('vk', ('vec', 'Kind'), None), ('item', 'Item', None),
+            ('items', ('vec', 'Item'), None), ('sub', 'Doc', None), ('subs', ('vec', 'Doc'), None), ('na', 'int', 0), ('nam', 'int', 0),
+            ('name8888', 'int', 0), ('name88889', 'int', 0), ('a_long_field_name_x', 'string', None), ('a_long_field_name_xy', ('vec', 'string'), None)],
+}
+SUITE_B4 = Suite('b4', 'c04b_schema.fbs', 'c04b_parse.c', B4_TABLES, {('Item', 'name')}, B4_ENUMS, ['Item', 'Doc'], b'B4DC')
+SUITES = {'c04': SUITE_C04, 'b4': SUITE_B4}
+FRAG_ROOTS = SUITE_C04.roots
+
+
+# ---------------------------------------------------------------------------------------------- generic value trees / rendering
+def gen_scalar(rng, suite, t):
+    if t == 'bool': return rng.random() < 0.5
+    if t in suite.enums:
+        e = suite.enums[t]; lo, hi = U.INT_RANGES[e['base']]
+        return rng.choice(list(e['syms'].values())) if rng.random() < 0.8 else rng.choice([lo, hi, 0, 3])
+    lo, hi = U.INT_RANGES[t]
+    c = [x for x in U.BOUNDARY_INTS(lo, hi) if lo <= x <= hi]
+    return rng.choice(c) if rng.random() < 0.6 else rng.randint(lo, hi)
+
+
+def gen_value(rng, suite, t, depth, g):
     if isinstance(t, tuple):
-        assert t[0] == 'vec'
-        if t[1] == 'string': return 'V'
-        if t[1] in FRAG_TABLES: return 'T%d' % FRAG_TABLES.index(t[1])
-        sz, k = _sty(t[1]); return 'v%d%s' % (sz, k)
-    if t == 'string': return 'S'
-    if t in FRAG_TABLES: return 't%d' % FRAG_TABLES.index(t)
-    sz, k = _sty(t)
-    d = int(dflt) & ((1 << (8 * sz)) - 1)
-    return 's%d%s:%s' % (sz, k, d.to_bytes(sz, 'little').hex())
+        n = rng.choice([0, 1, 2, 3, rng.randint(0, 5)]) if depth < 3 else rng.choice([0, 1])
+        if t[1] in suite.tables and depth >= 3: n = 0
+        return [gen_value(rng, suite, t[1], depth + 1, g) for _ in range(n)]
+    if t == 'string': return g.string()
+    if t in suite.tables: return gen_table(rng, suite, t, depth, g)
+    return gen_scalar(rng, suite, t)
 
 
-def descriptor(tables=None, required=None, names=None):
-    """text descriptor of the fragment tables for modelrun_jsonparser (see ocaml/jsonparser/driver.ml)"""
-    tables = tables or U.TABLES; required = U.REQUIRED if required is None else required; names = names or FRAG_TABLES
-    out = []
-    for tn in names:
-        fs = []
-        for fid, (f, t, d) in enumerate(tables[tn]):
-            fs.append('%s:%d:%d:%s' % (f.encode().hex(), fid, 1 if (tn, f) in required else 0, _kind(t, d)))
-        out.append(','.join(fs))
-    return ';'.join(out)
+def gen_table(rng, suite, name, depth=0, g=None):
+    g = g or U.Gen(rng)
+    out = {}
+    pp = rng.choice([0.1, 0.3, 0.6, 1.0])
+    for f, t, d in suite.tables[name]:
+        req = (name, f) in suite.required
+        if not req and rng.random() > pp: continue
+        nested = t in suite.tables or (isinstance(t, tuple) and t[1] in suite.tables)
+        if nested and depth >= 3 and not req: continue
+        out[f] = gen_value(rng, suite, t, depth, g)
+    return out
+
+
+def render_scalar(suite, t, v, st):
+    if t == 'bool':
+        return (b'true' if v else b'false') if st.r.random() < 0.8 else (b'1' if v else b'0')
+    if t in suite.enums and st.enum_mode != 'num':
+        inv = {val: k for k, val in suite.enums[t]['syms'].items()}
+        if v in inv: return inv[v].encode() if (st.enum_mode == 'bare' and not st.quote_keys) else b'"' + inv[v].encode() + b'"'
+    return str(int(v)).encode()
+
+
+def render_value(suite, t, v, st):
+    if isinstance(t, tuple): return U.render_arr([render_value(suite, t[1], x, st) for x in v], st)
+    if t == 'string': return U.esc_string(v, st)
+    if t in suite.tables: return render_table(suite, t, v, st)
+    return render_scalar(suite, t, v, st)
+
+
+def render_table(suite, name, v, st):
+    parts = [(f, render_value(suite, t, v[f], st)) for f, t, d in suite.tables[name] if f in v]
+    if st.shuffle: st.r.shuffle(parts)
+    return U.render_obj(parts, st)
 
 
 def parse_max_levels():
@@ -74,19 +165,19 @@ def ensure_model(ctx):
     return exe
 
 
-def build_harness(ctx):
-    gdir = U.gen_schema(ctx)
-    return U.build_harness(ctx, 'json_scan_diff.c', 'json_scan_diff_b', gdir)
+def build_harness(ctx, suite=None):
+    return (suite or SUITE_C04).build_harness(ctx)
 
 
-def parser_model_check(ctx, cases, harness=None, c_replies=None):
+def parser_model_check(ctx, cases, harness=None, c_replies=None, suite=None):
     """Returns (mismatches, stats). mismatch = dict(key, what, replay). c_replies: replies of `parse <root> <flags> <fid> 1 <hex>`
     requests already obtained by the caller (same order as cases), else the harness is run here."""
     ensure_model(ctx)
+    suite = suite or SUITE_C04
     cases = [tuple(c) + (('case',) if len(c) == 4 else ()) for c in cases]
     H = harness
     maxlvl = parse_max_levels()
-    stats = {'cases': len(cases), 'outside': 0, 'c_abnormal': 0, 'accept': 0, 'reject': 0, 'maxlvl': maxlvl}
+    stats = {'cases': len(cases), 'outside': 0, 'c_abnormal': 0, 'long_digit_runs': 0, 'accept': 0, 'reject': 0, 'maxlvl': maxlvl}
     mism = []
     if maxlvl is None:
         # before the nesting-bound commit: no bound in the code; the model is run with the verifier's limit
@@ -94,9 +185,9 @@ def parser_model_check(ctx, cases, harness=None, c_replies=None):
         maxlvl = 100
     elif maxlvl > 100:
         mism.append({'key': 'parser-max-levels-above-verifier', 'what': 'FLATCC_JSON_PARSE_MAX_LEVELS = %d > 100: side condition of C04_parse_ok_verifies_partial' % maxlvl, 'replay': {}})
-    desc = descriptor()
+    desc = suite.descriptor()
     if c_replies is None:
-        if H is None: H = build_harness(ctx)
+        if H is None: H = suite.build_harness(ctx)
         reqs = ['parse %s %d %d 1 %s' % (root, flags, fid, U.hx(data)) for root, flags, fid, data, _ in cases]
         c_replies = U.run_resilient(H, reqs)
     mreqs = []
@@ -105,7 +196,7 @@ def parser_model_check(ctx, cases, harness=None, c_replies=None):
         f = r0.split()
         cb = f[5] if (f[:1] == ['OK'] and len(f) >= 6) else '-'
         if cb.startswith('ASAN'): cb = '-'
-        mreqs.append('parse %d %d %d %d %s %s %s' % (maxlvl, FRAG_TABLES.index(root), flags, IDENT_WORD if fid else 0, desc, U.hx(data), cb))
+        mreqs.append('parse %d %d %d %d %s %s %s' % (maxlvl, suite.frag.index(root), flags, suite.ident_word if fid else 0, desc, U.hx(data), cb))
     mreps = ctx.run_model('jsonparser', mreqs) if mreqs else []
     for (root, flags, fid, data, klass), rep, mrep, mreq in zip(cases, c_replies, mreps, mreqs):
         r0, _ub = U.split_ub(rep)
@@ -116,6 +207,9 @@ def parser_model_check(ctx, cases, harness=None, c_replies=None):
 
         def bad(key, what):
             mism.append({'key': key + ':' + root, 'what': '%s; input %r' % (what, data[:120]), 'replay': replay})
+        if LONG_DIGITS.search(data):
+            # runs of >= 20 digits: where the 64-bit wrap is detected is C19's subject (Scanner.integer keeps the pinned test)
+            stats['long_digit_runs'] += 1; continue
         if m[:1] == ['STOP']:
             if m[1] == '2': stats['outside'] += 1
             else: bad('model-stop-%s' % m[1], 'parser model returned STOP %s (read outside the input / out of fuel)' % m[1])
